@@ -15,7 +15,7 @@ from simkit.refmodel import RefLimiter
 ID = "C15"
 LEVEL = "exploration"
 BUDGET = {"quick": (3000, 35), "thorough": (800_000, 540)}
-RULE = ("program shapes {recursion, super() chain, callee exception caught, exception propagating, generator "
+RULE = ("program shapes {recursion, super() chain, callee exception caught, exception propagating, exception passing through a finally block, generator "
         "suspended/closed, nesting, leaf, configuration emptied while the invocation runs, agent shut down by the application in the middle of an invocation and started again before the next thread} x 1-3 span/capture tracepoints (method span, line span, method capture, line "
         "capture; fire_count 1 or unlimited) x 1-3 threads each running 1-4 shapes x thread-ident reuse x seeded "
         "schedules; non-trivial = a run with at least one span opened or one snapshot deferred; distinct = distinct "
@@ -97,6 +97,13 @@ def swapper(tag, out):
     b = 'r' + tag
     return b
 
+def finner(tag, out):
+    try:
+        thrower(tag + 'f', out)  #L:fin_call
+    finally:
+        out.append(('fin', tag + '#', None))  #L:fin_line
+    return 'never'
+
 def halter(tag, out):
     a = leaf(tag + 'q', out)  #L:halt_a
     halt_agent()
@@ -106,6 +113,8 @@ def drive(shape, tag, out):
     try:
         if shape == 'halt':
             v = halter(tag, out)
+        elif shape == 'fin':
+            v = finner(tag, out)
         elif shape == 'swap':
             v = swapper(tag, out)
             restore_config()
@@ -130,14 +139,16 @@ def drive(shape, tag, out):
         out.append(('exc', tag, str(e)))
         if shape == 'pass':
             out.append(('exc', tag + 'p', str(e)))
+        if shape == 'fin':
+            out.append(('exc', tag + 'f', str(e)))
 
 def tmain(tid, acts, out):
     for j, shape in enumerate(acts):
         drive(shape, 't%d_%d' % (tid, j), out)
 '''
-SHAPES = ("rec", "super", "catch", "pass", "gen", "nest", "leaf", "swap", "hop")
-FUNCS = ("rec", "work", "catcher", "passer", "thrower", "leaf", "usegen", "gen", "nest", "swapper", "hop", "halter")
-LINES = ("rec_call", "super_call", "catch_call", "pass_call", "gen_next", "nest_a", "nest_b", "leaf_body", "swap_a", "hop_call", "halt_a")
+SHAPES = ("rec", "super", "catch", "pass", "gen", "nest", "leaf", "swap", "hop", "fin")
+FUNCS = ("rec", "work", "catcher", "passer", "thrower", "leaf", "usegen", "gen", "nest", "swapper", "hop", "halter", "finner")
+LINES = ("rec_call", "super_call", "catch_call", "pass_call", "gen_next", "nest_a", "nest_b", "leaf_body", "swap_a", "hop_call", "halt_a", "fin_call", "fin_line")
 # recursion that passes through a frame of ANOTHER source file (a decorator, visitor or dispatcher of a library)
 RELAY_SRC = "def relay(fn, *args):\n    res = fn(*args)\n    return res\n"
 GEN_FUNCS = ("gen",)
@@ -463,6 +474,11 @@ def execute(s, ch):
                     if tp["kind"] == "lcap":
                         # a line capture completes at the next event of the function; only when that event ends the
                         # invocation does it carry the invocation's outcome
+                        if ev[pseq][2] == "return" and pseq == last_of_inv.get(ser) and w_.expression == "return" \
+                                and real[0] == "exc":
+                            viol.append(V("capture-is-not-the-invocations-outcome:%s" % shape, "invocation %s ended with "
+                                          "the exception %r (host log) but the snapshot, completed by the event that "
+                                          "ended it, says it returned %r" % (tag, real[1], text)))
                         continue
                     if w_.expression == "return":
                         if real[0] != "ret":
